@@ -3419,6 +3419,13 @@ class RoConstr:
         if any(index_neg):
             bounds.append(dual_var[:, index_neg] >= 0)
 
+        if self.raffine.shape[1] > num_rand:
+            # random variables declared after the set was defined are
+            # unrestricted in it, so their coefficients must vanish
+            extra = self.raffine[:, num_rand:]
+            if extra.linear.nnz > 0 or np.any(extra.const):
+                bounds.append(extra == 0)
+
         if num_rand == support.linear.shape[0]:
             constr_list = [constr1, constr2]
             constr_list += [] if bounds is None else bounds
